@@ -6,5 +6,7 @@ func init() {
 	// QuickTimeout: the quick tier needs about 40 s of wall time on an idle machine (3 to 4 minutes of CPU); on a machine shared with a dozen
 	// other checks it has been seen to take 5 minutes, which the default budget turns into "inconclusive"
 	reg("C15", propCfg{Pkg: "./props/c15", QuickTimeout: 15 * time.Minute, RaceThorough: true, RaceIsViolation: true, Fuzz: map[string]string{"FuzzC15Parse": "total"}, Rule: "generated inputs vs validity predicates and a compositional/round-trip oracle over structural dumps",
-		Assumptions: assume("columns are counted in runes (the scanner works on []rune)", "'terminates' is checked as 'returns within 20 s' for inputs of at most a few KiB", "structural equality is decided on a reflection dump of the tree including positions (internal/dump)")})
+		Assumptions: assume("columns are counted in runes (the scanner works on []rune)", "'terminates' is checked as 'returns within 20 s' for inputs of at most a few KiB", "structural equality is decided on a reflection dump of the tree including positions (internal/dump)",
+			"'no memory between calls' is judged within one process, a text's first result against its later ones, with at most about 15 000 spellings the process has not seen before (names, numbers, strings) parsed in between: a memory that only shows after more than that is not reached",
+			"'also under concurrent calls' is judged in the quick tier by the trees the calls return (up to 16 goroutines in different texts at any moment); the race detector is on in the thorough tier only")})
 }
